@@ -17,6 +17,8 @@ type GenCfg struct {
 	StreamBr  bool // allow stream branch conditions
 	SubModes  []string
 	WfPass    bool // allow passthrough nodes in workflows
+	State     bool // graphs may have state with pre/post handlers
+	PS        bool // bodies may call ProcessState
 	InKeys    []string // known keys of a map typed graph input (top level: InputKeys)
 	sub       bool
 }
@@ -59,6 +61,53 @@ func pick[T any](t *rapid.T, xs []T, label string) T {
 }
 
 var paraSets = []string{"I", "S", "C", "T", "IS", "IC", "IT", "SC", "ST", "CT", "ISC", "IST", "ICT", "SCT", "ISCT"}
+
+// addState turns a spec into a stateful one (with some probability) and hangs handlers on nodes.
+func addState(t *rapid.T, sp *Spec, cfg GenCfg, inherited bool) {
+	if !cfg.State {
+		return
+	}
+	sp.State = pct(t, 60, "state")
+	each := func(n *NodeSpec) {
+		if n.Kind == "pass" {
+			return
+		}
+		if sp.State {
+			if pct(t, 35, "preH") {
+				n.PreH = pick(t, []string{"v", "v", "s"}, "preKind")
+			}
+			if pct(t, 35, "postH") {
+				n.PostH = pick(t, []string{"v", "v", "s"}, "postKind")
+			}
+		}
+		if cfg.PS && n.Kind == "lambda" && (sp.State || inherited) && pct(t, 35, "ps") {
+			n.PS = true
+		}
+	}
+	for i := range sp.Nodes {
+		each(&sp.Nodes[i])
+	}
+	for si := range sp.Stages {
+		for i := range sp.Stages[si].Nodes {
+			each(&sp.Stages[si].Nodes[i])
+		}
+	}
+	// sub graphs decide for themselves; they inherit access to a state when an ancestor has one
+	var walk func(n *NodeSpec)
+	walk = func(n *NodeSpec) {
+		if n.Kind == "graph" {
+			addState(t, n.Sub, cfg, inherited || sp.State)
+		}
+	}
+	for i := range sp.Nodes {
+		walk(&sp.Nodes[i])
+	}
+	for si := range sp.Stages {
+		for i := range sp.Stages[si].Nodes {
+			walk(&sp.Stages[si].Nodes[i])
+		}
+	}
+}
 
 func decorate(t *rapid.T, n *NodeSpec, cfg GenCfg) {
 	if cfg.Paradigms && n.Kind == "lambda" {
@@ -105,6 +154,13 @@ func genNodeFor(t *rapid.T, key string, inT string, predKeys []string, cfg GenCf
 		n.OutputKey = key
 	}
 	return n
+}
+
+// GenTop draws a top-level spec and decorates it (state).
+func GenTop(t *rapid.T, mode string, cfg GenCfg) *Spec {
+	sp := GenSpec(t, mode, cfg)
+	addState(t, sp, cfg, false)
+	return sp
 }
 
 // GenSpec draws a spec of the given mode.
